@@ -3,6 +3,7 @@ CONSTANTS
   Configs <- ConfigsAll
   MaxOps = 5
   Defects = {"ClosedStaysIdle"}
+  SplitDestroy = TRUE
   LeaseOrder = "any"
 SPECIFICATION Spec
 INVARIANTS TypeOK InvOneState InvIdleList InvCounts InvNoDirty InvLimits InvRefusalJustified InvRefusalNeutral
